@@ -5,6 +5,7 @@ import (
 	"io"
 	"io/ioutil"
 	"strings"
+	"sync"
 	"unicode"
 )
 
@@ -118,7 +119,13 @@ type lexer struct {
 	last   token // The last emitted token
 	parens int   // Number of open parenthesis
 	width  int   // Number of bytes consumed by the last call to next
+
+	done     chan struct{} // Closed by stop when no more tokens will be read.
+	stopOnce sync.Once
 }
+
+// lexStopped is used to unwind the tokenizer once stop has been called.
+type lexStopped struct{}
 
 // nextToken returns the next token emitted by the lexer.
 func (l *lexer) nextToken() token {
@@ -130,10 +137,49 @@ func (l *lexer) nextToken() token {
 	return l.last
 }
 
+// stop tells the tokenizer that no more tokens will be read, so that it does
+// not stay blocked forever trying to deliver the next one.
+func (l *lexer) stop() {
+	l.stopOnce.Do(func() {
+		close(l.done)
+	})
+}
+
+// send delivers a token to the reader, or unwinds the tokenizer if the reader
+// has gone away.
+func (l *lexer) send(tok token) {
+	select {
+	case l.tokens <- tok:
+	case <-l.done:
+		panic(lexStopped{})
+	}
+}
+
 // tokenize kicks things off.
+//
+// When tokenizing ends for any reason other than reaching the end of the input
+// (an error token was emitted, or stop was called) the token channel is closed,
+// so that nextToken keeps returning the last token instead of blocking. A panic
+// in a state function is reported as an error token: tokenize usually runs in
+// its own goroutine, where a panic could not be recovered by the caller.
 func (l *lexer) tokenize() {
 	verifLexStart()
 	defer verifLexExit()
+	defer func() {
+		if r := recover(); r != nil {
+			if _, ok := r.(lexStopped); !ok && l.mode != modeClosed {
+				tok := token{fmt.Sprintf("tokenizer failure: %v", r), tokenError, Pos{l.line, l.offset}}
+				select {
+				case l.tokens <- tok:
+				case <-l.done:
+				}
+			}
+		}
+		if l.mode != modeClosed {
+			close(l.tokens)
+			l.mode = modeClosed
+		}
+	}()
 	for l.state = lexData; l.state != nil; {
 		l.state = l.state(l)
 	}
@@ -143,7 +189,7 @@ func (l *lexer) tokenize() {
 func newLexer(input io.Reader) *lexer {
 	// TODO: lexer should use the reader.
 	i, _ := ioutil.ReadAll(input)
-	return &lexer{0, 0, 1, 0, string(i), make(chan token), nil, modeNormal, token{}, 0, 0}
+	return &lexer{0, 0, 1, 0, string(i), make(chan token), nil, modeNormal, token{}, 0, 0, make(chan struct{}), sync.Once{}}
 }
 
 func (l *lexer) next() (val string) {
@@ -194,7 +240,7 @@ func (l *lexer) emit(t tokenType) {
 		l.offset += len(val)
 	}
 
-	l.tokens <- tok
+	l.send(tok)
 	l.start = l.pos
 	if tok.tokenType == tokenEOF {
 		close(l.tokens)
@@ -205,7 +251,7 @@ func (l *lexer) emit(t tokenType) {
 func (l *lexer) errorf(format string, args ...interface{}) stateFn {
 	verifLexStep()
 	tok := token{fmt.Sprintf(format, args...), tokenError, Pos{l.line, l.offset}}
-	l.tokens <- tok
+	l.send(tok)
 
 	return nil
 }
